@@ -85,6 +85,7 @@ class Cfg:
         self._reach = None
         self._dom = None
         self._pdom = None
+        self._rf = {}
 
     def reachable(self, start=0, cut_edges=(), cut_nodes=()):
         """Blocks reachable from `start` without using cut edges / entering cut nodes."""
@@ -103,6 +104,17 @@ class Cfg:
                 seen.add(v)
                 dq.append(v)
         return seen
+
+    def reach_from(self, b):
+        """Blocks reachable from b (b included)."""
+        r = self._rf.get(b)
+        if r is None:
+            r = self.reachable(b)
+            self._rf[b] = r
+        return r
+
+    def can_reach(self, a, b):
+        return a == b or b in self.reach_from(a)
 
     def live(self):
         if self._reach is None:
@@ -485,44 +497,47 @@ class BodyIndex:
                     if not (ty.startswith("&mut ") or ty.startswith("std::pin::Pin<&mut ")
                             or ty.startswith("*mut ")):
                         continue
-                    _, visited = self._resolve(a.place.local, norm_path(a.place), IDENT, want_visited=True)
-                    for (l, p) in visited:
+                    _, visited = self._resolve(a.place.local, norm_path(a.place), IDENT, want_visited=True, at=b.i)
+                    for (l, p, _a) in visited:
                         m.setdefault(l, []).append((b.i, p, ai))
             self._mut = m
         return self._mut
 
     # -- resolution ------------------------------------------------------
-    def resolve_place(self, place, level=IDENT):
-        return self.resolve(place.local, norm_path(place), level)
+    def resolve_place(self, place, level=IDENT, at=None):
+        return self.resolve(place.local, norm_path(place), level, at if at is not None else place.blk)
 
     def resolve_operand(self, op, level=IDENT, blk=None):
         if op.place is not None:
-            return self.resolve_place(op.place, level)
+            return self.resolve_place(op.place, level, blk)
         return {Origin("const", self.body, blk, None, (), op)}
 
-    def resolve(self, local, path=(), level=IDENT):
-        key = (local, tuple(path), level)
+    def resolve(self, local, path=(), level=IDENT, at=None):
+        """`at` = block where the value is used: only definitions that can reach it are followed
+        (reachability-aware, not kill-aware)."""
+        key = (local, tuple(path), level, at)
         if key in self._memo:
             return self._memo[key]
-        out, _ = self._resolve(local, tuple(path), level)
+        out, _ = self._resolve(local, tuple(path), level, at=at)
         self._memo[key] = out
         return out
 
-    def aliases(self, place):
-        _, visited = self._resolve(place.local, norm_path(place), IDENT, want_visited=True)
-        return visited
+    def aliases(self, place, at=None):
+        _, visited = self._resolve(place.local, norm_path(place), IDENT, want_visited=True, at=at)
+        return {(l, q) for (l, q, _a) in visited}
 
-    def _resolve(self, local, path, level, want_visited=False):
+    def _resolve(self, local, path, level, want_visited=False, at=None):
         body = self.body
         out = set()
         seen = set()
-        work = [(local, tuple(path))]
+        work = [(local, tuple(path), at)]
         mut = self.mutated_by() if level >= DEPEND else None
+        cfg = self.cfg
         while work:
-            l, q = work.pop()
-            if (l, q) in seen:
+            l, q, at = work.pop()
+            if (l, q, at) in seen:
                 continue
-            seen.add((l, q))
+            seen.add((l, q, at))
             if len(q) > 12 or len(seen) > 4000:
                 # cyclic data flow that keeps wrapping the value: give up on this branch
                 fi = _last_local_field(q)
@@ -550,6 +565,8 @@ class BodyIndex:
             if not defs and not is_arg:
                 out.add(Origin("other", body, None, None, q, ("undef", l)))
             for kind, blk, idx, d, obj in defs:
+                if at is not None and not cfg.can_reach(blk, at):
+                    continue
                 if q[:len(d)] == d:
                     rest = q[len(d):]
                 elif d[:len(q)] == q:
@@ -570,18 +587,20 @@ class BodyIndex:
                 for (blk, p, ai) in mut.get(l, []):
                     if not (q[:len(p)] == p or p[:len(q)] == q):
                         continue
+                    if at is not None and not cfg.can_reach(blk, at):
+                        continue
                     t = body.blocks[blk].term
                     out.add(Origin("call", body, blk, None, (("mutarg", ai),), None))
                     for aj, a in enumerate(t.args):
                         if aj != ai and a.place is not None:
-                            work.append((a.place.local, norm_path(a.place)))
+                            work.append((a.place.local, norm_path(a.place), blk))
         if want_visited:
             return out, seen
         return out, None
 
     def _push_op(self, op, rest, blk, work, out):
         if op.place is not None:
-            work.append((op.place.local, norm_path(op.place) + tuple(rest)))
+            work.append((op.place.local, norm_path(op.place) + tuple(rest), blk))
         else:
             out.add(Origin("const", self.body, blk, None, tuple(rest), op))
 
@@ -591,7 +610,7 @@ class BodyIndex:
         if k == "use":
             self._push_op(rv.ops[0], rest, blk, work, out)
         elif k in ("ref", "rawptr", "copyforderef"):
-            work.append((rv.place.local, norm_path(rv.place) + tuple(rest)))
+            work.append((rv.place.local, norm_path(rv.place) + tuple(rest), blk))
         elif k == "cast":
             ck = rv.j["cast"]
             if ck.startswith("PointerCoercion") or ck in ("PtrToPtr", "Transmute", "Subtype"):
@@ -648,7 +667,7 @@ class BodyIndex:
         elif k == "discr":
             out.add(Origin("discr", body, blk, idx, rest, rv))
             if level >= DEPEND:
-                work.append((rv.place.local, norm_path(rv.place)))
+                work.append((rv.place.local, norm_path(rv.place), blk))
         elif k == "repeat":
             out.add(Origin("repeat", body, blk, idx, rest, rv))
         else:
@@ -818,13 +837,13 @@ class Program:
         return None
 
     # -- lifting of closure captures ------------------------------------
-    def resolve_lifted(self, body, local, path=(), level=IDENT, _visited=None):
+    def resolve_lifted(self, body, local, path=(), level=IDENT, _visited=None, at=None):
         """resolve; lift closure captures into the enclosing bodies; descend into the closure run by
         spawn_blocking when its awaited result is projected; abstract parameter-rooted crate-ADT
         fields. Cycles across bodies are cut by a visited set."""
         top = _visited is None
         if top:
-            mk = (body.path, local, tuple(path), level)
+            mk = (body.path, local, tuple(path), level, at)
             if mk in self._lift_memo:
                 return self._lift_memo[mk]
             _visited = set()
@@ -832,7 +851,7 @@ class Program:
         if key in _visited:
             return set()
         _visited.add(key)
-        res = self.idx(body).resolve(local, path, level)
+        res = self.idx(body).resolve(local, path, level, at)
         out = set()
         for o in res:
             if o.kind == "param" and o.body.def_kind == "Closure" and o.info == 1 and o.path and o.path[0][0] == "f":
@@ -884,7 +903,7 @@ class Program:
             if op.place is None:
                 out.add(Origin("const", pb, blk, i, rest, op))
             else:
-                out |= self.resolve_lifted(pb, op.place.local, norm_path(op.place) + rest, level, visited)
+                out |= self.resolve_lifted(pb, op.place.local, norm_path(op.place) + rest, level, visited, at=blk)
         return out
 
     def _closure_return(self, o, rest, level, visited):
@@ -905,9 +924,12 @@ class Program:
         return out
 
     def resolve_op(self, body, op, level=IDENT, blk=None):
+        """Resolve an operand used in block `blk` (None: flow-insensitive)."""
+        if blk is None:
+            blk = op.blk
         if op.place is None:
             return {Origin("const", body, blk, None, (), op)}
-        return self.resolve_lifted(body, op.place.local, norm_path(op.place), level)
+        return self.resolve_lifted(body, op.place.local, norm_path(op.place), level, at=blk)
 
     # -- logical parameters ---------------------------------------------
     def param_index(self, origin):
